@@ -249,6 +249,9 @@ func dlExec(r *Run, line string) {
 		cancel()
 		r.Emit(line, "timeout")
 		r.Notes = append(r.Notes, "downloader run timed out: "+line)
+		if line == dlStall {
+			r.Fail("[C05] the download loop stalls: the tip advanced to block 7 (watched event in it), the next read of the finalized pointer failed once, and the loop went back to waiting for a block newer than 7 without ever fetching blocks 6-7 — on a quiet chain the event is never handed over", []string{line})
+		}
 		return
 	}
 	cancel()
@@ -303,12 +306,17 @@ func dlExec(r *Run, line string) {
 // six disagreeing header answers in a row (calls 0..5), so the fetch gives up in iteration 0
 const dlF6 = "run 1 10 1 20 3:31;15:151 20,20,1;20,20,1 - - 0:m;1:m;2:m;3:m;4:m;5:m G:0"
 
+// directed schedule: idle at the top (tip 5 = finalized), the tip moves to 7 with a watched event, the first read of the
+// finalized pointer after the wake-up fails, and the chain stays quiet: blocks 6-7 must still be fetched and handed over
+const dlStall = "run 1 10 1 5 3:31;7:71 5,5,1;7,7,0;7,7,1 - - -"
+
 func dlGen(r *Run, rng *Rng) {
 	n := 250
 	if r.Tier == "thorough" {
 		n = 3000
 	}
 	dlExec(r, dlF6)
+	dlExec(r, dlStall)
 	for i := 0; i < n; i++ {
 		chunk := []uint64{0, 1, 2, 3, 7, 10, 50}[rng.Intn(7)]
 		span := uint64(8 + rng.Intn(40))
